@@ -1210,7 +1210,7 @@ func (r *Register) DebugString() string {
 }
 
 func (r *Register) PrettyPrint(out *ast.PrintState) *ast.PrintState {
-	out.Print(r.DebugString())
+	out.Print(r.Literal()) // the variable's name: what the source says (quote(i) in a loop isn't quote(R[0,i])).
 	return out
 }
 
